@@ -2116,6 +2116,7 @@ class UTPM(Ring, RawAlgorithmsMixIn):
         """
         out = dot(x,y)
         """
+        buf = out       # (a buffer supplied by the caller is filled and returned)
 
         if isinstance(x, UTPM) and isinstance(y, UTPM):
             x_shp = x.data.shape
@@ -2162,6 +2163,9 @@ class UTPM(Ring, RawAlgorithmsMixIn):
         else:
             raise NotImplementedError('should implement that')
 
+        if buf is not None:
+            buf.data[...] = out.data
+            return buf
         return out
 
     @classmethod
@@ -2169,6 +2173,7 @@ class UTPM(Ring, RawAlgorithmsMixIn):
         """
         out = outer(x,y)
         """
+        buf = out       # (a buffer supplied by the caller is filled and returned)
 
         if isinstance(x, UTPM) and isinstance(y, UTPM):
             x_shp = x.data.shape
@@ -2196,6 +2201,9 @@ class UTPM(Ring, RawAlgorithmsMixIn):
         else:
             raise NotImplementedError('this operation is not supported')
 
+        if buf is not None:
+            buf.data[...] = out.data
+            return buf
         return out
 
     @classmethod
